@@ -10,6 +10,7 @@ RULE = ('Histories as C01 on removal-enabled graphs of both classes. After every
         'no-argument dict has exactly the ids as keys, avg_number_of_nodes() == mean |V_t|. '
         'non-trivial = an interval span and a re-add/overlap/containment on some pair occurred before the last query.')
 ASSUMPTIONS = ['e > t']
+TECHNIQUE = 'model-based PBT: snapshot index and per-snapshot counts vs the reference model after every call'
 BUDGET = {'quick': {'cases': 24000, 'seconds': 40}, 'thorough': {'cases': 400000, 'seconds': 540}}
 
 
